@@ -195,6 +195,22 @@ M = [
         response.unit_id = request.unit_id
         self._send(response)""", """        response.transaction_id = request.transaction_id
         self._send(response)"""),
+ ('c08_fifo_values_from_count_field', 'C08', 'pymodbus/file_message.py',
+  """        for index in range(0, (byte_count - 2) // 2):
+""", """        for index in range(0, _ - 4):
+"""),
+ ('c14_plus_statistics_prediction', 'C14', 'pymodbus/diag_message.py',
+  """        return 1 + 2 + 2 + data
+""", """        return 1 + 2 + 2 + 2 + data
+"""),
+ ('c08_rtu_diag_reply_always_8', 'C08', 'pymodbus/diag_message.py',
+  """            return cls._rtu_frame_size + 2 + 108
+""", """            return cls._rtu_frame_size
+"""),
+ ('c14_fc3_prediction_one_short', 'C14', 'pymodbus/register_read_message.py',
+  """        return 1 + 1 + 2 * self.count
+""", """        return 1 + 1 + 2 * self.count - (1 if self.count == 125 else 0)
+"""),
 ]
 
 
